@@ -91,7 +91,9 @@ func (s *Syncer) syncLoop(ctx context.Context, env *lmdb.Env, r *receiver.Receiv
 		}
 		s.l.WithError(err).Info("Waiting for initial receiver listing")
 		verifhook.Yield(s.instanceID(), "startup.list_failed", "")
-		time.Sleep(time.Second)
+		if err := utils.SleepContext(ctx, time.Second); err != nil {
+			return err
+		}
 	}
 
 	// Start tracker: Initial storage snapshots listed
